@@ -67,6 +67,12 @@ def hide_by_metadata(rng, t: Tree, kinds: typing.Dict[str, str]) -> typing.Set[s
             t.file(".cap/" + n, "Type=X\n")
             kinds.setdefault(".cap", "dir")
         hidden.add(n)
+    dirs = [n for n in kinds if not n.startswith(".") and kinds[n] == "dir"]
+    if dirs and rng.random() < 0.6:
+        # a directory is naturally addressed with a trailing slash
+        n = rng.choice(dirs)
+        blocks.append("Path=./%s/\nType=X\n" % n)
+        hidden.add(n)
     for n in cands[3:3 + rng.randrange(0, 3)]:
         # a .cap file that renames without hiding
         t.file(".cap/" + n, "Name=Capped %s\nNumb=%d\n" % (n, rng.randrange(-2, 3)))
